@@ -237,17 +237,28 @@ func (s *Server) ListenAndServeTLS() error {
 	return s.Serve(l)
 }
 
+// stop marks the server as closed. It reports false if it already was.
+func (s *Server) stop() bool {
+	s.locker.Lock()
+	defer s.locker.Unlock()
+
+	select {
+	case <-s.done:
+		return false
+	default:
+		close(s.done)
+		return true
+	}
+}
+
 // Close immediately closes all active listeners and connections.
 //
 // Close returns any error returned from closing the server's underlying
 // listener(s).
 func (s *Server) Close() error {
-	select {
-	case <-s.done:
+	verifYield("server.close")
+	if !s.stop() {
 		return ErrServerClosed
-	default:
-		verifYield("server.close")
-		close(s.done)
 	}
 
 	var err error
@@ -274,12 +285,9 @@ func (s *Server) Close() error {
 // Shutdown returns the context's error, otherwise it returns any
 // error returned from closing the Server's underlying Listener(s).
 func (s *Server) Shutdown(ctx context.Context) error {
-	select {
-	case <-s.done:
+	verifYield("server.shutdown")
+	if !s.stop() {
 		return ErrServerClosed
-	default:
-		verifYield("server.shutdown")
-		close(s.done)
 	}
 
 	var err error
